@@ -1,6 +1,6 @@
 (* C20 -- lemmas about the small_vector model. *)
 From Coq Require Import ZArith List Bool Arith Lia.
-From VV Require Import SmallVec.SmallVecDefs.
+From VV Require Import SmallVec.SmallVecAst Gen.SmallVecOps SmallVec.SmallVecDefs.
 Import ListNotations.
 
 Section Proofs.
@@ -117,15 +117,156 @@ Section Proofs.
     rewrite H, map_repeat. reflexivity.
   Qed.
 
-  Lemma moveout_app : forall pre vs post b,
-    length pre = b ->
-    moveout_range P b (length vs) (pre ++ map AS vs ++ post)
-    = Ok (vs, pre ++ map AS (map mv vs) ++ post).
+  (* ------------------------------------------------- element-wise moves *)
+  Lemma get_app : forall pre c post i, length pre = i -> get i (pre ++ c :: post) = Ok c.
   Proof.
-    intros pre vs post b Hb. unfold moveout_range.
-    rewrite read_range_app by assumption. cbn [bind].
-    rewrite assign_app; [reflexivity|assumption| |apply alive_AS].
-    rewrite !map_length. reflexivity.
+    intros pre c post i H. subst i. unfold get. rewrite nth_error_app2 by lia.
+    rewrite Nat.sub_diag. reflexivity.
+  Qed.
+
+  Lemma set_app : forall pre c c' post i, length pre = i ->
+    set i c' (pre ++ c :: post) = Ok (pre ++ c' :: post).
+  Proof.
+    induction pre as [|x pre IH]; intros c c' post i H; subst i; cbn.
+    - reflexivity.
+    - rewrite (IH c c' post (length pre) eq_refl). reflexivity.
+  Qed.
+
+  Ltac norm := repeat rewrite <- app_assoc; cbn [app].
+
+  (* one element moved to a cell further back *)
+  Lemma move1_lt : forall w pre v gap dc dc' post s d,
+    length pre = s -> d = s + 1 + length gap -> w dc v = Ok dc' ->
+    move1 P w s d (pre ++ AS v :: gap ++ dc :: post) = Ok (pre ++ AS (mv v) :: gap ++ dc' :: post).
+  Proof.
+    intros w pre v gap dc dc' post s d Hs Hd Hw. unfold move1.
+    rewrite (get_app pre (AS v) (gap ++ dc :: post) s Hs). cbn [bind c_read AS].
+    assert (Hd2 : length (pre ++ AS v :: gap) = d) by (rewrite app_length; cbn [length]; lia).
+    assert (Hshape : pre ++ AS v :: gap ++ dc :: post = (pre ++ AS v :: gap) ++ dc :: post) by (norm; reflexivity).
+    rewrite Hshape.
+    rewrite (get_app _ dc post d Hd2). cbn [bind]. rewrite Hw. cbn [bind].
+    rewrite (set_app _ dc dc' post d Hd2). cbn [bind].
+    norm. apply (set_app pre (AS v) (AS (mv v)) (gap ++ dc' :: post) s Hs).
+  Qed.
+
+  (* forward move to a destination behind the source range *)
+  Lemma move_fwd_ok : forall w (Q : cell -> Prop), (forall c v, Q c -> w c v = Ok (AS v)) ->
+    forall vs pre gap mid post s d,
+      length pre = s -> d = s + length vs + length gap -> length mid = length vs -> Forall Q mid ->
+      move_fwd P w s d (length vs) (pre ++ map AS vs ++ gap ++ mid ++ post)
+      = Ok (pre ++ map AS (map mv vs) ++ gap ++ map AS vs ++ post).
+  Proof.
+    intros w Q Hw. induction vs as [|v vs IH]; intros pre gap mid post s d Hs Hd Hm HQ.
+    - destruct mid; [|discriminate]. reflexivity.
+    - destruct mid as [|m mid]; [discriminate|]. inversion HQ as [|? ? Hm1 Hm2]; subst.
+      cbn [length move_fwd map]. norm.
+      assert (Hshape : pre ++ AS v :: map AS vs ++ gap ++ m :: mid ++ post
+                       = pre ++ AS v :: (map AS vs ++ gap) ++ m :: (mid ++ post)) by (norm; reflexivity).
+      rewrite Hshape.
+      rewrite (move1_lt w pre v (map AS vs ++ gap) m (AS v) (mid ++ post) (length pre) _ eq_refl);
+        [|rewrite app_length, map_length; cbn [length] in *; lia|apply Hw; assumption].
+      cbn [bind].
+      assert (Hshape2 : pre ++ AS (mv v) :: (map AS vs ++ gap) ++ AS v :: mid ++ post
+                        = (pre ++ [AS (mv v)]) ++ map AS vs ++ (gap ++ [AS v]) ++ mid ++ post) by (norm; reflexivity).
+      rewrite Hshape2.
+      rewrite (IH (pre ++ [AS (mv v)]) (gap ++ [AS v]) mid post);
+        [norm; reflexivity|rewrite app_length; cbn [length]; lia
+         |rewrite !app_length; cbn [length] in *; lia|cbn [length] in Hm; lia|assumption].
+  Qed.
+
+  Lemma firstn_app_le : forall (A : Type) d (X Y : list A), d <= length X -> firstn d (X ++ Y) = firstn d X.
+  Proof.
+    intros A d X Y H. rewrite firstn_app. replace (d - length X) with 0 by lia. cbn. apply app_nil_r.
+  Qed.
+
+  (* std::move_backward by d >= 1 places: ranges may overlap; every cell is
+     read before it is overwritten.  The d cells starting at the source hold
+     moved-from objects afterwards. *)
+  Lemma move_bwd_ok : forall vs pre tail s d,
+    length pre = s -> 1 <= d -> d <= length tail -> Forall alive (firstn d tail) ->
+    move_bwd P c_assign s (s + d) (length vs) (pre ++ map AS vs ++ tail)
+    = Ok (pre ++ firstn d (map AS (map mv vs) ++ tail) ++ map AS vs ++ skipn d tail).
+  Proof.
+    induction vs as [|v vs IH] using rev_ind; intros pre tail s d Hs Hd1 Hd2 Ha.
+    - cbn [length move_bwd map app]. rewrite firstn_skipn. reflexivity.
+    - rewrite app_length. cbn [length]. rewrite Nat.add_1_r. cbn [move_bwd].
+      (* the cell the last element goes to *)
+      set (t1 := firstn (d - 1) tail).
+      assert (Ht : exists c t2, tail = t1 ++ c :: t2).
+      { destruct (skipn (d - 1) tail) as [|c t2] eqn:E.
+        - exfalso. assert (Hl : length (skipn (d - 1) tail) = 0) by (rewrite E; reflexivity).
+          rewrite skipn_length in Hl. lia.
+        - exists c, t2. unfold t1. rewrite <- E. symmetry. apply firstn_skipn. }
+      destruct Ht as (c & t2 & Ht).
+      assert (Hl1 : length t1 = d - 1) by (unfold t1; rewrite firstn_length; lia).
+      assert (Hfd : firstn d tail = t1 ++ [c]).
+      { rewrite Ht. rewrite firstn_app. replace (d - length t1) with 1 by lia.
+        rewrite firstn_all2 by lia. reflexivity. }
+      rewrite Hfd in Ha. apply Forall_app in Ha. destruct Ha as (Ha1 & Ha2).
+      pose proof (Forall_inv Ha2) as Hc.
+      rewrite map_app. cbn [map].
+      assert (Hshape : pre ++ (map AS vs ++ [AS v]) ++ tail
+                       = (pre ++ map AS vs) ++ AS v :: t1 ++ c :: t2).
+      { rewrite Ht. norm. reflexivity. }
+      rewrite Hshape.
+      rewrite (move1_lt c_assign (pre ++ map AS vs) v t1 c (AS v) t2);
+        [|rewrite app_length, map_length; lia|lia|apply assign_ok; exact Hc].
+      cbn [bind]. norm.
+      rewrite (IH pre (AS (mv v) :: t1 ++ AS v :: t2) s d Hs Hd1).
+      + f_equal. f_equal.
+        assert (Hsk1 : skipn d (AS (mv v) :: t1 ++ AS v :: t2) = AS v :: t2).
+        { destruct d as [|d']; [lia|]. cbn [skipn].
+          rewrite skipn_app. rewrite skipn_all2 by lia. replace (d' - length t1) with 0 by lia.
+          reflexivity. }
+        assert (Hsk2 : skipn d tail = t2).
+        { rewrite Ht. rewrite skipn_app. rewrite skipn_all2 by lia.
+          replace (d - length t1) with 1 by lia. reflexivity. }
+        assert (Hf1 : firstn d (map AS (map mv vs) ++ AS (mv v) :: t1 ++ AS v :: t2)
+                      = firstn d (map AS (map mv vs) ++ AS (mv v) :: t1)).
+        { replace (map AS (map mv vs) ++ AS (mv v) :: t1 ++ AS v :: t2)
+            with ((map AS (map mv vs) ++ AS (mv v) :: t1) ++ AS v :: t2) by (norm; reflexivity).
+          apply firstn_app_le. rewrite app_length. cbn [length]. lia. }
+        assert (Hf2 : firstn d (map AS (map mv (vs ++ [v])) ++ tail)
+                      = firstn d (map AS (map mv vs) ++ AS (mv v) :: t1)).
+        { rewrite Ht, !map_app. cbn [map]. norm.
+          replace (map AS (map mv vs) ++ AS (mv v) :: t1 ++ c :: t2)
+            with ((map AS (map mv vs) ++ AS (mv v) :: t1) ++ c :: t2) by (norm; reflexivity).
+          apply firstn_app_le. rewrite app_length. cbn [length]. lia. }
+        rewrite Hsk1, Hsk2, Hf1, Hf2. reflexivity.
+      + cbn [length]. rewrite app_length. cbn [length]. lia.
+      + destruct d as [|d']; [lia|]. cbn [firstn]. constructor; [reflexivity|].
+        rewrite firstn_app_le by lia. rewrite firstn_all2 by lia. exact Ha1.
+  Qed.
+
+  (* element-wise transfer between two blocks *)
+  Lemma xfer_ok : forall w (Q : cell -> Prop) moving, (forall c v, Q c -> w c v = Ok (AS v)) ->
+    forall vs spost dmid dpost,
+      length dmid = length vs -> Forall Q dmid ->
+      xfer P w moving (length vs) (map AS vs ++ spost) (dmid ++ dpost)
+      = Ok (map AS (if moving then map mv vs else vs) ++ spost, map AS vs ++ dpost).
+  Proof.
+    intros w Q moving Hw. induction vs as [|v vs IH]; intros spost dmid dpost Hl HQ.
+    - destruct dmid; [|discriminate]. destruct moving; reflexivity.
+    - destruct dmid as [|m dmid]; [discriminate|]. inversion HQ as [|? ? H1 H2]; subst.
+      cbn [length xfer map app bind c_read AS]. rewrite (Hw _ _ H1). cbn [bind].
+      rewrite (IH spost dmid dpost); [|cbn [length] in Hl; lia|assumption]. cbn [bind].
+      destruct moving; reflexivity.
+  Qed.
+
+  (* when the n source cells hold values, the element-wise transfer writes
+     exactly those values, in order, and fails exactly where the write fails *)
+  Lemma xfer_bridge : forall w moving vs spost dst,
+    xfer P w moving (length vs) (map AS vs ++ spost) dst
+    = bind (write_range w 0 vs dst)
+           (fun r => Ok (map AS (if moving then map mv vs else vs) ++ spost, r)).
+  Proof.
+    intros w moving. induction vs as [|v vs IH]; intros spost dst.
+    - cbn [length xfer map app]. rewrite write_range_nil. destruct moving; reflexivity.
+    - destruct dst as [|d dst]; [reflexivity|].
+      cbn [length xfer map app bind c_read AS write_range].
+      destruct (w d v) as [d'|e]; [|reflexivity]. cbn [bind].
+      rewrite IH. destruct (write_range w 0 vs dst) as [r|e]; [|reflexivity]. cbn [bind].
+      destruct moving; reflexivity.
   Qed.
 
   (* ------------------------------------------------- blocks *)
@@ -238,7 +379,7 @@ Section Proofs.
   Proof.
     intros s vs n (Hll & Hla & rest & Hd & Hn & Hr & Hc) Hle HS.
     unfold grow. rewrite Hd, <- Hn.
-    pose proof (moveout_app [] vs rest 0 eq_refl) as Hm. app0 Hm. rewrite Hm. cbn [bind].
+    rewrite xfer_bridge. cbn [bind].
     assert (Ha : alloc P n = alloc P (length vs) ++ alloc P (n - length vs)).
     { rewrite <- alloc_split. f_equal. lia. }
     rewrite Ha.
@@ -337,26 +478,44 @@ Section Proofs.
     destruct (read_range 0 (size s) (data s)); congruence.
   Qed.
 
+  Lemma rep_xfer : forall s vs, rep s vs ->
+    exists rest, data s = map AS vs ++ rest /\
+      forall w moving dst,
+        xfer P w moving (size s) (data s) dst
+        = bind (write_range w 0 vs dst)
+               (fun r => Ok (map AS (if moving then map mv vs else vs) ++ rest, r)).
+  Proof.
+    intros s vs (Hll & Hla & rest & Hd & Hn & Hr & Hc). exists rest. split; [exact Hd|].
+    intros w moving dst. rewrite Hd, <- Hn. apply xfer_bridge.
+  Qed.
+
   Lemma copy_ctor_ok : forall rhs vs, rep rhs vs -> exists s, copy_ctor P rhs = Ok s /\ rep s vs.
   Proof.
-    intros rhs vs H. unfold copy_ctor. rewrite (contents_ok _ _ H). cbn [bind]. apply build_ok.
+    intros rhs vs H. unfold copy_ctor. destruct (rep_xfer _ _ H) as (rest & _ & Hx).
+    rewrite !Hx. rewrite (rep_size _ _ H).
+    destruct (build_ok vs) as (s & Hb & Hr). unfold build in Hb.
+    destruct (length vs <=? S).
+    - destruct (write_range c_assign 0 vs (fresh_local P)) as [l|e]; [|discriminate].
+      cbn [bind] in *. inversion Hb; subst. eexists. split; [reflexivity|exact Hr].
+    - destruct (write_range (c_construct P) 0 vs (alloc P (length vs))) as [l|e]; [|discriminate].
+      cbn [bind] in *. inversion Hb; subst. eexists. split; [reflexivity|exact Hr].
   Qed.
 
   (* moving out of the elements of a well-formed vector *)
   Lemma rep_moveout : forall s vs, rep s vs ->
-    exists d', moveout_range P 0 (size s) (data s) = Ok (vs, d') /\
+    exists d', (forall w dst, xfer P w true (size s) (data s) dst
+                              = bind (write_range w 0 vs dst) (fun r => Ok (d', r))) /\
                rep (set_data s d' (size s)) (map mv vs).
   Proof.
-    intros s vs (Hll & Hla & rest & Hd & Hn & Hr & Hc).
-    rewrite Hd, <- Hn.
-    pose proof (moveout_app [] vs rest 0 eq_refl) as Hm. app0 Hm. rewrite Hm.
-    eexists. split; [reflexivity|].
-    destruct s as [[h|] l sz]; cbn [set_data heap loc size data is_heap] in *.
-    - eapply rep_heap; [reflexivity|assumption|assumption|apply map_length|exact Hr|].
-      unfold capacity in Hc. cbn in Hc. rewrite Hd in Hc.
-      rewrite app_length, !map_length in *. exact Hc.
-    - eapply rep_local; [reflexivity| |apply map_length|exact Hr].
-      rewrite <- Hll, Hd, !app_length, !map_length. reflexivity.
+    intros s vs H. pose proof H as (Hll & Hla & rest & Hd & Hn & Hr & Hc).
+    exists (map AS (map mv vs) ++ rest). split.
+    - intros w dst. rewrite Hd, <- Hn. apply xfer_bridge.
+    - destruct s as [[h|] l sz]; cbn [set_data heap loc size data is_heap] in *.
+      + eapply rep_heap; [reflexivity|assumption|assumption|rewrite map_length; exact Hn|exact Hr|].
+        unfold capacity in Hc. cbn in Hc. rewrite Hd in Hc.
+        rewrite app_length, !map_length in *. exact Hc.
+      + eapply rep_local; [reflexivity| |rewrite map_length; exact Hn|exact Hr].
+        rewrite <- Hll, Hd, !app_length, !map_length. reflexivity.
   Qed.
 
   Lemma move_ctor_ok : forall rhs vs, rep rhs vs ->
@@ -716,7 +875,7 @@ Section Proofs.
     intros this rhs us ws Ht Hrhs. unfold copy_assign.
     pose proof (rep_size _ _ Hrhs) as Hsr. pose proof (rep_size _ _ Ht) as Hst.
     destruct (rep_cap _ _ Ht) as (Hc1 & Hc2).
-    rewrite (contents_ok _ _ Hrhs).
+    destruct (rep_xfer _ _ Hrhs) as (rrest & _ & Hx).
     destruct (capacity this <? size rhs) eqn:E.
     - apply Nat.ltb_lt in E.
       assert (H1 : exists this1, (if is_heap this then free_heap_memory P this else Ok this) = Ok this1
@@ -726,7 +885,7 @@ Section Proofs.
         - erewrite free_heap_ok; [|exact Hd|exact Hn|exact Hr]. eexists. split; reflexivity.
         - eexists. split; reflexivity. }
       destruct H1 as (this1 & H1 & Hl1). rewrite H1. cbn [bind].
-      rewrite Hsr.
+      rewrite Hx, Hsr.
       pose proof (construct_app [] ws (alloc P (length ws)) [] 0 eq_refl) as H.
       app0 H. rewrite !app_nil_r in H. rewrite H; [|apply alloc_length|apply alloc_rest]. cbn [bind].
       eexists. split; [reflexivity|].
@@ -752,12 +911,12 @@ Section Proofs.
             { apply construct_rest_ok. exact Hk2. }
             exists d, (resized (size rhs) us). split; [exact Hd|]. split; [exact Hr|].
             unfold resized. rewrite app_length, firstn_length, repeat_length. lia. }
-        destruct Hmid as (d1 & xs & Hd1 & Hr1 & Hlx). rewrite Hd1. cbn [bind].
+        destruct Hmid as (d1 & xs & Hd1 & Hr1 & Hlx). rewrite Hd1. cbn [bind]. rewrite Hx.
         destruct (overwrite_ok _ xs ws Hr1) as (d2 & Hd2 & Hr2); [lia|].
         rewrite data_set_data in Hd2. rewrite Hd2. cbn [bind].
         rewrite size_set_data, set_data_set_data in Hr2.
         eexists. split; [reflexivity|exact Hr2].
-      + cbn [bind].
+      + cbn [bind]. rewrite Hx.
         destruct (assign_over_alive this us ws Ht) as (d & Hd & Hr).
         { rewrite andb_comm. exact Hk. }
         { lia. }
@@ -809,94 +968,103 @@ Section Proofs.
   (* ------------------------------------------------- insert *)
   Ltac lens := rewrite ?app_length, ?map_length, ?firstn_length, ?skipn_length, ?repeat_length; try lia.
 
-  Lemma insert_shift_ok : forall w (Q : cell -> Prop) A B C R1 R2 xs pos n sz,
+  Lemma gen_shape : insert_shape_gen =
+    mkInsertShape
+      [IGAppendAtEnd; IGReturnIfEmpty]
+      ICondTailAtLeastN
+      [RAppendMoved (PMinus PEnd Nn) PEnd; RMove Bwd WAssign PI (PMinus POldEnd Nn) POldEnd; RCopyIn WAssign PI]
+      [RSizeAdd; RMove Fwd WByStorage PI POldEnd (PMinus PEnd Noverwritten); ROverwrite; RCopyIn WByStorage POldEnd].
+  Proof. reflexivity. Qed.
+
+  Ltac interp_cbn := cbn [interp_rcalls interp_rcall eval_ptr eval_num e_pos e_old_end e_n sel].
+
+  (* the "simple" branch of insert as extracted from the source *)
+  Lemma insert_simple_ok : forall w (Q : cell -> Prop) A B C R1 R2 xs pos n sz,
     (forall c v, Q c -> w c v = Ok (AS v)) -> Forall Q R1 ->
     pos = length A -> n = length C -> sz = length A + length B + length C ->
-    length R1 = n -> length xs = n ->
-    insert_shift P w pos n sz xs (map AS A ++ map AS B ++ map AS C ++ R1 ++ R2)
-    = Ok (map AS (A ++ xs ++ B ++ C) ++ R2).
+    length R1 = n -> length xs = n -> 1 <= n ->
+    interp_rcalls P w (mkIenv pos sz n)
+      [RAppendMoved (PMinus PEnd Nn) PEnd; RMove Bwd WAssign PI (PMinus POldEnd Nn) POldEnd; RCopyIn WAssign PI]
+      (map AS A ++ map AS B ++ map AS C ++ R1 ++ R2, sz, xs)
+    = Ok (map AS (A ++ xs ++ B ++ C) ++ R2, sz + n, []).
   Proof.
-    intros w Q A B C R1 R2 xs pos n sz Hw HQ Hpos Hn Hsz HR1 Hxs. unfold insert_shift.
-    (* 1. move the last n elements out *)
-    assert (E1 : moveout_range P (sz - n) n (map AS A ++ map AS B ++ map AS C ++ R1 ++ R2)
-                 = Ok (C, map AS A ++ map AS B ++ map AS (map mv C) ++ R1 ++ R2)).
-    { rewrite Hn at 2.
-      replace (map AS A ++ map AS B ++ map AS C ++ R1 ++ R2)
-        with ((map AS A ++ map AS B) ++ map AS C ++ (R1 ++ R2)) by (rewrite <- ?app_assoc; reflexivity).
-      rewrite moveout_app by lens. rewrite <- ?app_assoc. reflexivity. }
-    rewrite E1. cbn [bind].
-    (* 2. ... behind the old end *)
-    assert (E2 : write_range w sz C (map AS A ++ map AS B ++ map AS (map mv C) ++ R1 ++ R2)
+    intros w Q A B C R1 R2 xs pos n sz Hw HQ Hpos Hn Hsz HR1 Hxs Hn1. interp_cbn.
+    (* 1. append(move_iterator(end() - n), move_iterator(end())): forward, element by element *)
+    assert (E1 : move_fwd P w (sz - n) sz (sz - (sz - n)) (map AS A ++ map AS B ++ map AS C ++ R1 ++ R2)
                  = Ok (map AS A ++ map AS B ++ map AS (map mv C) ++ map AS C ++ R2)).
-    { replace (map AS A ++ map AS B ++ map AS (map mv C) ++ R1 ++ R2)
-        with ((map AS A ++ map AS B ++ map AS (map mv C)) ++ R1 ++ R2) by (rewrite <- ?app_assoc; reflexivity).
-      rewrite (write_range_app w AS Q Hw) by (try assumption; lens).
-      rewrite <- ?app_assoc. reflexivity. }
-    rewrite E2. cbn [bind].
-    (* 3. move the middle out *)
-    assert (E3 : moveout_range P pos (sz - n - pos)
-                   (map AS A ++ map AS B ++ map AS (map mv C) ++ map AS C ++ R2)
-                 = Ok (B, map AS A ++ map AS (map mv B) ++ map AS (map mv C) ++ map AS C ++ R2)).
-    { replace (sz - n - pos) with (length B) by lia.
-      rewrite moveout_app by lens. reflexivity. }
-    rewrite E3. cbn [bind].
-    (* 4. ... n places further; M = the moved-from region *)
-    set (M := map AS (map mv B) ++ map AS (map mv C)).
-    assert (HM : Forall alive M).
-    { apply Forall_app. split; apply alive_AS. }
-    assert (HlM : length M = length B + n).
-    { unfold M. lens. }
-    destruct (Forall_firstn_skipn _ _ n _ HM) as (HM1 & HM2).
-    assert (E4 : write_range c_assign (pos + n) B
-                   (map AS A ++ map AS (map mv B) ++ map AS (map mv C) ++ map AS C ++ R2)
-                 = Ok (map AS A ++ firstn n M ++ map AS B ++ map AS C ++ R2)).
-    { replace (map AS A ++ map AS (map mv B) ++ map AS (map mv C) ++ map AS C ++ R2)
-        with ((map AS A ++ firstn n M) ++ skipn n M ++ (map AS C ++ R2)).
-      2:{ rewrite <- ?app_assoc. f_equal. rewrite (app_assoc (firstn n M)), firstn_skipn.
-          unfold M. rewrite <- ?app_assoc. reflexivity. }
-      rewrite assign_app; [rewrite <- ?app_assoc; reflexivity| | |exact HM2].
-      - rewrite app_length, map_length, firstn_length. lia.
-      - rewrite skipn_length. lia. }
-    rewrite E4. cbn [bind].
-    (* 5. the new elements *)
-    rewrite (assign_app (map AS A) xs (firstn n M)); [| | |exact HM1].
-    - f_equal. rewrite !map_app, <- ?app_assoc. reflexivity.
-    - lens.
-    - rewrite firstn_length. lia.
+    { replace (sz - (sz - n)) with (length C) by lia.
+      replace (map AS A ++ map AS B ++ map AS C ++ R1 ++ R2)
+        with ((map AS A ++ map AS B) ++ map AS C ++ [] ++ R1 ++ R2) by (norm; reflexivity).
+      rewrite (move_fwd_ok w Q Hw C (map AS A ++ map AS B) [] R1 R2); [norm; reflexivity| | | |exact HQ].
+      - rewrite app_length, !map_length. lia.
+      - cbn [length]. lia.
+      - lia. }
+    rewrite E1. cbn [bind]. interp_cbn.
+    (* 2. std::move_backward(i, old_end - n, old_end): backward, overlapping *)
+    set (tail := map AS (map mv C) ++ map AS C ++ R2).
+    assert (Hal : Forall alive (firstn n tail)).
+    { unfold tail. rewrite firstn_app_le by (rewrite !map_length; lia).
+      rewrite firstn_all2 by (rewrite !map_length; lia). apply alive_AS. }
+    assert (E2 : move_bwd P c_assign pos (sz - (sz - n - pos)) (sz - n - pos)
+                   (map AS A ++ map AS B ++ tail)
+                 = Ok (map AS A ++ firstn n (map AS (map mv B) ++ tail) ++ map AS B ++ skipn n tail)).
+    { replace (sz - (sz - n - pos)) with (pos + n) by lia.
+      replace (sz - n - pos) with (length B) by lia.
+      apply move_bwd_ok; [rewrite map_length; lia|lia| |exact Hal].
+      unfold tail. rewrite !app_length, !map_length. lia. }
+    rewrite E2. cbn [bind]. interp_cbn.
+    (* 3. std::copy(b, e, i) *)
+    set (M := firstn n (map AS (map mv B) ++ tail)).
+    assert (HM : Forall alive M /\ length M = n).
+    { unfold M, tail.
+      replace (map AS (map mv B) ++ map AS (map mv C) ++ map AS C ++ R2)
+        with ((map AS (map mv B) ++ map AS (map mv C)) ++ map AS C ++ R2) by (norm; reflexivity).
+      rewrite firstn_app_le by (rewrite app_length, !map_length; lia).
+      split.
+      - apply (Forall_firstn_skipn _ alive n (map AS (map mv B) ++ map AS (map mv C))).
+        apply Forall_app. split; apply alive_AS.
+      - rewrite firstn_length, app_length, !map_length. lia. }
+    destruct HM as (HM1 & HM2).
+    assert (Hsk : skipn n tail = map AS C ++ R2).
+    { unfold tail. replace n with (length (map AS (map mv C))) at 1 by (rewrite !map_length; lia).
+      rewrite skipn_app, skipn_all, Nat.sub_diag. reflexivity. }
+    rewrite Hsk.
+    rewrite (assign_app (map AS A) xs M); [| | |exact HM1].
+    - cbn [bind]. replace (sz + (sz - (sz - n))) with (sz + n) by lia.
+      rewrite !map_app. norm. reflexivity.
+    - rewrite map_length. lia.
+    - lia.
   Qed.
 
+  (* the other branch: more elements inserted than follow the insertion point *)
   Lemma insert_over_ok : forall w (Q : cell -> Prop) A T R1a R1b R2 xs pos n sz,
     (forall c v, Q c -> w c v = Ok (AS v)) -> Forall Q R1a -> Forall Q R1b ->
     pos = length A -> sz = length A + length T -> length xs = n -> length T < n ->
     length R1a = n - length T -> length R1b = length T ->
-    insert_over P w w pos n sz xs (map AS A ++ map AS T ++ R1a ++ R1b ++ R2)
-    = Ok (map AS (A ++ xs ++ T) ++ R2).
+    interp_rcalls P w (mkIenv pos sz n)
+      [RSizeAdd; RMove Fwd WByStorage PI POldEnd (PMinus PEnd Noverwritten); ROverwrite; RCopyIn WByStorage POldEnd]
+      (map AS A ++ map AS T ++ R1a ++ R1b ++ R2, sz, xs)
+    = Ok (map AS (A ++ xs ++ T) ++ R2, sz + n, []).
   Proof.
-    intros w Q A T R1a R1b R2 xs pos n sz Hw HQa HQb Hpos Hsz Hxs Hlt Hla Hlb. unfold insert_over.
-    replace (sz - pos) with (length T) by lia.
-    rewrite moveout_app by lens. cbn [bind].
-    assert (E2 : write_range w (sz + n - length T) T
-                   (map AS A ++ map AS (map mv T) ++ R1a ++ R1b ++ R2)
-                 = Ok (map AS A ++ map AS (map mv T) ++ R1a ++ map AS T ++ R2)).
-    { replace (map AS A ++ map AS (map mv T) ++ R1a ++ R1b ++ R2)
-        with ((map AS A ++ map AS (map mv T) ++ R1a) ++ R1b ++ R2) by (rewrite <- ?app_assoc; reflexivity).
-      rewrite (write_range_app w AS Q Hw) by (try assumption; lens).
-      rewrite <- ?app_assoc. reflexivity. }
-    rewrite E2. cbn [bind].
+    intros w Q A T R1a R1b R2 xs pos n sz Hw HQa HQb Hpos Hsz Hxs Hlt Hla Hlb. interp_cbn.
+    assert (Hsp : sz - pos = length T) by lia.
+    cbn [bind]. interp_cbn. rewrite ?Hsp.
+    rewrite (move_fwd_ok w Q Hw T (map AS A) R1a R1b R2); [|rewrite map_length; lia|lia|lia|exact HQb].
+    cbn [bind]. interp_cbn. rewrite ?Hsp.
     rewrite (assign_app (map AS A) (firstn (length T) xs) (map AS (map mv T))); [| | |apply alive_AS].
-    2: lens. 2: lens.
-    cbn [bind].
+    2: rewrite map_length; lia. 2: rewrite !map_length, firstn_length; lia.
+    cbn [bind]. interp_cbn. rewrite ?Hsp.
     assert (E4 : write_range w sz (skipn (length T) xs)
                    (map AS A ++ map AS (firstn (length T) xs) ++ R1a ++ map AS T ++ R2)
                  = Ok (map AS A ++ map AS (firstn (length T) xs) ++ map AS (skipn (length T) xs) ++ map AS T ++ R2)).
     { replace (map AS A ++ map AS (firstn (length T) xs) ++ R1a ++ map AS T ++ R2)
         with ((map AS A ++ map AS (firstn (length T) xs)) ++ R1a ++ (map AS T ++ R2))
-        by (rewrite <- ?app_assoc; reflexivity).
+        by (norm; reflexivity).
       rewrite (write_range_app w AS Q Hw) by (try assumption; lens).
-      rewrite <- ?app_assoc. reflexivity. }
-    rewrite E4. f_equal.
+      norm. reflexivity. }
+    rewrite E4. cbn [bind]. f_equal. f_equal. f_equal.
     rewrite <- (firstn_skipn (length T) xs) at 3.
-    rewrite !map_app, <- ?app_assoc. reflexivity.
+    rewrite !map_app. norm. reflexivity.
   Qed.
 
   Lemma rep_set_data : forall s vs d ws rest' n',
@@ -916,7 +1084,9 @@ Section Proofs.
   Lemma insert_ok : forall s vs pos xs, rep s vs -> pos <= length vs ->
     exists s', insert P pos xs s = Ok (s', pos) /\ rep s' (firstn pos vs ++ xs ++ skipn pos vs).
   Proof.
-    intros s vs pos xs H Hpos. unfold insert. pose proof (rep_size _ _ H) as Hs.
+    intros s vs pos xs H Hpos. unfold insert, insert_with. rewrite gen_shape.
+    cbn [ins_guards ins_cond ins_simple ins_over has_guard existsb orb andb].
+    pose proof (rep_size _ _ H) as Hs.
     replace (size s <? pos) with false by (symmetry; apply Nat.ltb_ge; lia).
     destruct (pos =? size s) eqn:E.
     - apply Nat.eqb_eq in E. destruct (append_ok s vs xs H) as (s' & Ha & Hr).
@@ -947,8 +1117,8 @@ Section Proofs.
           assert (HlB : length B = length vs - n - pos) by (unfold B; rewrite firstn_length; lia).
           assert (HlC : length C = n) by (unfold C; rewrite skipn_length; lia).
           rewrite Hblk.
-          rewrite (insert_shift_ok (put P s1) (restP P (is_heap s1)) A B C R1 R2 xs pos n (length vs));
-            [|apply put_ok|exact Hq1|lia|lia|lia|unfold R1; rewrite firstn_length; lia|reflexivity].
+          rewrite (insert_simple_ok (put P s1) (restP P (is_heap s1)) A B C R1 R2 xs pos n (length vs));
+            [|apply put_ok|exact Hq1|lia|lia|lia|unfold R1; rewrite firstn_length; lia|reflexivity|lia].
           cbn [bind]. eexists. split; [reflexivity|].
           assert (HBC : BC = B ++ C) by (unfold B, C; rewrite firstn_skipn; reflexivity).
           change (firstn pos vs) with A. change (skipn pos vs) with BC. rewrite HBC.
